@@ -728,9 +728,71 @@ def corpus_programs():
     return out
 
 
-def build_jobs(progs, seed, sets_per_prog, chk, sweep_gaps=0):
-    """base lint of every program (parallel), decoration, plans"""
+LIMIT_RE = {"nesting.excessive-depth": [(re.compile(r"nesting depth \((\d+)\)"), ("nesting", "max_nesting_depth"))],
+            "srp.violation": [(re.compile(r"(\d+) methods"), ("srp", "max_methods")), (re.compile(r"(\d+) lines"), ("srp", "max_loc"))]}
+MEASURE = {"nesting": {"max_nesting_depth": 1}, "srp": {"max_methods": 1, "max_loc": 1}}
+
+
+def _variant_job(job):
+    """a new base program from a pool program: (split) constructs spread over two lines - `else` | `if`, `=` | right-hand side,
+    opening bracket | first element - so that the plans and the gap sweep put blank / comment lines BETWEEN two tokens of one
+    construct; (limit) a threshold of a rule with a limit set to a value measured on this very program (or one below it), so that a
+    misjudgement by one level / one line flips the verdict"""
+    prog, seed, want = job
+    r = rng_for(seed, PROP, "variant", prog["id"], want)
+    files, kinds = prog["files"], []
+    if "split" in want:
+        nf = []
+        for f in files:
+            sp = E.split_lines(f["lang"], f["text"], r)
+            if sp:
+                nf.append(dict(f, text=sp[0]))
+                kinds += ["split:" + k for k in sp[1]]
+            else:
+                nf.append(f)
+        if not kinds:
+            return None
+        files = nf
+    cfg = prog["config"]
+    if "limit" in want or r.random() < 0.6:
+        mcfg = {**cfg, **{k: {**(cfg.get(k) or {}), **v} for k, v in MEASURE.items()}}
+        m = lint([(f["name"], f["text"].encode("utf-8")) for f in files], mcfg)
+        vals = set()
+        for v in m.get("v", []):
+            for rx, (sec, key) in LIMIT_RE.get(v[0], []):
+                mm = rx.search(v[4])
+                if mm:
+                    vals.add((sec, key, int(mm.group(1))))
+        if vals:
+            sec, key, val = r.choice(sorted(vals))
+            lim = max(1, val - r.choice([0, 0, 1]))
+            cfg = {**cfg, sec: {**(cfg.get(sec) or {}), key: lim}}
+            kinds.append(f"limit:{key}={'measured' if lim == val else 'measured-1'}")
+        elif not kinds:
+            return None
+    p = dict(prog, id=prog["id"] + "+" + want, source=prog["source"].split(":")[0] + "+variant", files=files, config=cfg, variant=sorted(set(kinds)))
+    return p, _base_job(p)
+
+
+def build_jobs(progs, seed, sets_per_prog, chk, sweep_gaps=0, variants=(0.0, 0.0)):
+    """base lint of every program (parallel), split / at-limit variants, decoration, plans"""
     bases = pool_map(_base_job, progs, procs=8)
+    vjobs = []
+    for prog, base in zip(progs, bases):
+        if base is None or prog.get("plans"):
+            continue
+        rv = rng_for(seed, PROP, "variant-sel", prog["id"])
+        x = rv.random()
+        if x < variants[0]:
+            vjobs.append((prog, seed, "split"))
+        elif x < variants[0] + variants[1]:
+            vjobs.append((prog, seed, "limit"))
+    extra = [v for v in pool_map(_variant_job, vjobs, procs=8) if v is not None and v[1] is not None]
+    for vp, vb in extra:
+        for k in vp.get("variant", []):
+            chk.dist("variant:" + k.split("=")[0])
+    progs = list(progs) + [vp for vp, _ in extra]
+    bases = list(bases) + [vb for _, vb in extra]
     progs2 = []
     for i, (prog, base) in enumerate(zip(progs, bases)):
         if base is None:
@@ -914,7 +976,7 @@ def run(tier: str, seed: int, replay: str | None = None) -> int:
     chk.build(["theories/Props/C13.v"], ["EditGen", "IgnoreGen", "DryGen", "SrpGen"], known_v=["theories/Props/C13Known.v"])
     scale = chk.budget_scale()
     quick = tier == "quick"
-    n_gen = (150 if quick else 1500) * scale
+    n_gen = (125 if quick else 1500) * scale
     sets_per_prog = 3 if quick else 6
     unit_cap = (260 if quick else 2600) * scale
     if replay:
@@ -932,7 +994,7 @@ def run(tier: str, seed: int, replay: str | None = None) -> int:
         if quick:
             docs = [p for p in docs if r0.random() < 0.5]
         progs = corpus_programs() + docs + gen
-    jobs = build_jobs(progs, seed, sets_per_prog, chk, sweep_gaps=90 if quick else 250)
+    jobs = build_jobs(progs, seed, sets_per_prog, chk, sweep_gaps=90 if quick else 250, variants=(0.0, 0.0) if replay else (0.14, 0.06) if quick else (0.6, 0.3))
     results = pool_map(run_obs, jobs, procs=8)
     # ---------------------------------------------------------------- observable level
     for job, res in zip(jobs, results):
